@@ -194,7 +194,7 @@ func propC09(c *Check) {
 	}
 	c.Floor("R5", "engine RPC wrappers", n, 3)
 	// callers of the engine do not drop the error result
-	for _, f := range []*ssa.Function{F, p.MustFn("x/goat/keeper.Keeper.createEthBlockProposal"), p.MustFn("x/goat/keeper.Keeper.verifyEthBlockProposal$2")} {
+	for _, f := range []*ssa.Function{F, p.MustFn("x/goat/keeper.Keeper.createEthBlockProposal"), p.closureCalling(p.MustFn("x/goat/keeper.Keeper.verifyEthBlockProposal"), `^EngineClient\.NewPayloadV4\(`)} {
 		for _, ci := range p.FindCalls(f, `^EngineClient\.`) {
 			call, ok := ci.(*ssa.Call)
 			if !ok {
@@ -315,29 +315,24 @@ func propC10(c *Check) {
 	c.RequireFact(ah, "R2", "msgs-readable", lit("(Tx.GetMsgsV2($2)#1 == nil)"), tn, "next()")
 	c.RequireFact(ah, "R2", "proposer-readable", lit("(RelayerKeeper.GetCurrentProposer()#1 == nil)"), tn, "next()")
 
-	// mode split: per message, from the ExecMode() call to the next iteration / next(): must pass through the admission of that mode
+	// mode split: per message, from the computation of its name to the next message / next(): in each of the five
+	// execution modes the admission of that mode must have been passed. Admission = the namespace test AND the
+	// signer test (wherever they are written: inline, in a local closure, in a helper; the signer test may be
+	// hoisted before the loop), or — in block modes only — the exact MsgNewEthBlock name.
 	modeCalls := p.FindCalls(ah, `^Context\.ExecMode\(`)
 	name := "MessageDescriptor.FullName(Message.Descriptor(ProtoMessage.ProtoReflect(Tx.GetMsgsV2($2)#0[φ{(1 + @)|0}])))"
-	rto := p.Fn("app.GoatGuardHandler.AnteHandle$1")
-	if len(modeCalls) != 1 || rto == nil {
-		c.Violated("R2", "mode-split @ "+FuncKey(ah), p.Pos(ah.Pos()), "per-message ExecMode() dispatch or relayerTxOnly closure not found reason=not-established")
+	if len(modeCalls) == 0 {
+		c.Violated("R2", "mode-split @ "+FuncKey(ah), p.Pos(ah.Pos()), "no ExecMode() dispatch found reason=not-established")
 	} else {
 		mc := modeCalls[0]
 		mode := "Context.ExecMode()"
-		relayerOK := `^\(callfn\(closure\(app\.GoatGuardHandler\.AnteHandle\$1\)\)\(` + regexp.QuoteMeta(name) + `\)(‹\d+›)? == nil\)$`
+		qn := regexp.QuoteMeta(name)
+		prefixRe := regexp.MustCompile(`^strings\.HasPrefix\(` + qn + `, "[^"]*"\)$`)
+		signer := regexp.QuoteMeta("StdTx.GetSigners(" + std + "#0)#0[0]")
+		prop := regexp.QuoteMeta("RelayerKeeper.GetCurrentProposer()#0")
+		proposerRe := regexp.MustCompile(`^AccAddress\.Equals\(` + prop + `, ` + signer + `\)$|^AccAddress\.Equals\(` + signer + `, ` + prop + `\)$|^bytes\.Equal\(` + prop + `, ` + signer + `\)$|^bytes\.Equal\(` + signer + `, ` + prop + `\)$`)
 		ethBlock := lit(EQ("\"goat.goat.v1.MsgNewEthBlock\"", name))
 		heightEq := lit(EQ("Context.BlockHeight()", to))
-		nextIter := func(in ssa.Instruction) bool { return in == ssa.Instruction(mc) || tn(in) }
-		// classify by taking, for each mode constant, the path set: delete the edges of other modes.
-		sc := p.LookupObj("x/goat/types", "ModuleName") // just to make sure packages are loaded
-		_ = sc
-		modes := map[string]string{}
-		for _, ef := range p.EdgeFacts(ah) {
-			if m := regexp.MustCompile(`^\(Context\.ExecMode\(\) == (\d+)\)$|^\((\d+) == Context\.ExecMode\(\)\)$`).FindStringSubmatch(ef.Fact); m != nil {
-				v := m[1] + m[2]
-				modes[v] = ef.Fact
-			}
-		}
 		// sdk.ExecMode constants by value
 		em := map[string]string{}
 		if sdkPkg := findImported(p, "github.com/cosmos/cosmos-sdk/types"); sdkPkg != nil {
@@ -350,15 +345,7 @@ func propC10(c *Check) {
 		if len(em) < 8 {
 			c.Violated("R2", "exec-mode-constants", "", "sdk.ExecMode constants not resolved reason=not-established")
 		}
-		modeFact := func(n string) string { return EQ(em[n], mode) }
-		allModeEdges := map[string][]EdgeFact{}
-		for _, ef := range p.EdgeFacts(ah) {
-			for n := range em {
-				if ef.Fact == modeFact(n) {
-					allModeEdges[n] = append(allModeEdges[n], ef)
-				}
-			}
-		}
+		_ = mode
 		// the instruction that names the message under inspection marks "one message": between two
 		// executions of it (or the last one and next()) the admission of the mode must have succeeded
 		var nameInstr ssa.Instruction
@@ -371,7 +358,17 @@ func propC10(c *Check) {
 			c.Violated("R2", "message-name @ "+FuncKey(ah), p.Pos(ah.Pos()), "the per-message name computation was not found reason=not-established")
 			return
 		}
-		nextIter = func(in ssa.Instruction) bool { return in == nameInstr || tn(in) }
+		nextIter := func(in ssa.Instruction) bool { return in == nameInstr || tn(in) }
+		isName := func(in ssa.Instruction) bool { return in == nameInstr }
+		prefixEdges := p.MatchEdges(ah, prefixRe)
+		proposerEdges := p.MatchEdges(ah, proposerRe)
+		ethEdges := p.MatchEdges(ah, regexp.MustCompile(ethBlock))
+		if len(prefixEdges) == 0 {
+			c.Violated("R2", "namespace-test @ "+FuncKey(ah), p.Pos(ah.Pos()), "no branch on strings.HasPrefix(message name, const) found (directly, in a closure or in a helper) reason=not-established")
+		}
+		if len(proposerEdges) == 0 {
+			c.Violated("R2", "signer-test @ "+FuncKey(ah), p.Pos(ah.Pos()), "no branch comparing the current relayer proposer with the single signer found reason=not-established")
+		}
 		modeEdge := regexp.MustCompile(`^\((\d+) (==|!=) Context\.ExecMode\(\)\)$`)
 		loopExit := lit("(len(Tx.GetMsgsV2($2)#0) <= φ{(1 + @)|0})")
 		for _, n := range []string{"ExecModeCheck", "ExecModeReCheck", "ExecModePrepareProposal", "ExecModeProcessProposal", "ExecModeFinalize"} {
@@ -398,40 +395,65 @@ func propC10(c *Check) {
 			}
 			c.Held("R2", "mode "+n+" all-messages-visited @ "+FuncKey(ah), p.InstrPos(nameInstr), "next() only after the loop over all messages ended")
 			// (b) flag states in which the mode reaches a message
-			states := (&PathSearch{Fn: ah, AvoidEdges: restrict, IsTarget: func(in ssa.Instruction) bool { return in == nameInstr }}).FindAll()
+			states := (&PathSearch{Fn: ah, AvoidEdges: restrict, IsTarget: isName}).FindAll()
 			if len(states) == 0 {
 				c.Violated("R2", "mode "+n+" @ "+FuncKey(ah), p.InstrPos(mc), "the message loop is not reachable in this execution mode: messages pass unchecked reason=not-established")
 				continue
 			}
-			var pat string
-			if n == "ExecModeProcessProposal" || n == "ExecModeFinalize" {
-				pat = relayerOK + "|" + ethBlock
-			} else {
-				pat = relayerOK // the block message has no exception outside a block
-			}
-			avoid := map[edgeKey]bool{}
-			for k := range restrict {
-				avoid[k] = true
-			}
-			for _, e := range p.MatchEdges(ah, regexp.MustCompile(pat)) {
-				avoid[e.Key()] = true
+			blockMode := n == "ExecModeProcessProposal" || n == "ExecModeFinalize"
+			mk := func(edges []EdgeFact) map[edgeKey]bool {
+				avoid := map[edgeKey]bool{}
+				for k := range restrict {
+					avoid[k] = true
+				}
+				for _, e := range edges {
+					avoid[e.Key()] = true
+				}
+				if blockMode {
+					for _, e := range ethEdges {
+						avoid[e.Key()] = true
+					}
+				}
+				return avoid
 			}
 			bad := false
+			// the signer test may be made once, before the first message
+			signerHoisted := false
+			{
+				av := map[edgeKey]bool{}
+				for k := range restrict {
+					av[k] = true
+				}
+				for _, e := range proposerEdges {
+					av[e.Key()] = true
+				}
+				if t, _ := (&PathSearch{Fn: ah, AvoidEdges: av, IsTarget: isName}).Find(); t == nil && len(proposerEdges) > 0 {
+					signerHoisted = true
+				}
+			}
 			for _, st := range states {
-				if t, path := (&PathSearch{Fn: ah, From: nameInstr, InitState: st.State, AvoidEdges: avoid, IsTarget: nextIter}).Find(); t != nil {
+				if t, path := (&PathSearch{Fn: ah, From: nameInstr, InitState: st.State, AvoidEdges: mk(prefixEdges), IsTarget: nextIter}).Find(); t != nil {
 					bad = true
-					c.Violated("R2", "mode "+n+" admission @ "+FuncKey(ah), p.InstrPos(t), "in this mode a message reaches next()/the next message without relayerTxOnly (or, in block modes, the exact MsgNewEthBlock name)", p.describePath(path)...)
+					c.Violated("R2", "mode "+n+" admission @ "+FuncKey(ah), p.InstrPos(t), "in this mode a message reaches next()/the next message without the namespace test"+map[bool]string{true: " (or the exact MsgNewEthBlock name)", false: ""}[blockMode], p.describePath(path)...)
+					break
+				}
+				if signerHoisted {
+					continue
+				}
+				if t, path := (&PathSearch{Fn: ah, From: nameInstr, InitState: st.State, AvoidEdges: mk(proposerEdges), IsTarget: nextIter}).Find(); t != nil {
+					bad = true
+					c.Violated("R2", "mode "+n+" admission @ "+FuncKey(ah), p.InstrPos(t), "in this mode a message reaches next()/the next message without the signer being compared with the current relayer proposer"+map[bool]string{true: " (or the exact MsgNewEthBlock name)", false: ""}[blockMode], p.describePath(path)...)
 					break
 				}
 			}
 			if !bad {
-				c.Held("R2", "mode "+n+" admission @ "+FuncKey(ah), p.InstrPos(nameInstr), "only via relayerTxOnly"+map[bool]string{true: " or the MsgNewEthBlock name", false: ""}[strings.Contains(pat, "MsgNewEthBlock")])
+				c.Held("R2", "mode "+n+" admission @ "+FuncKey(ah), p.InstrPos(nameInstr), "only via namespace test + signer = relayer proposer"+map[bool]string{true: ", or the MsgNewEthBlock name", false: ""}[blockMode])
 			}
 		}
 		// the MsgNewEthBlock exception requires timeout height == block height (that it exists only in block
-		// modes is part of the per-mode admission above: mempool modes accept relayerTxOnly alone)
-		if eb := p.MatchEdges(ah, regexp.MustCompile(ethBlock)); len(eb) > 0 {
-			for _, e := range eb {
+		// modes is part of the per-mode admission above: mempool modes accept the relayer admission alone)
+		if len(ethEdges) > 0 {
+			for _, e := range ethEdges {
 				t, path := searchFromBlock(ah, e.Block.Succs[e.Idx], edgeSet(p.MatchEdges(ah, regexp.MustCompile(heightEq))), nextIter)
 				if t != nil {
 					c.Violated("R2", "block-message-timeout=height @ "+FuncKey(ah), p.InstrPos(t), "MsgNewEthBlock admitted without timeout height == block height", p.describePath(path)...)
@@ -442,25 +464,45 @@ func propC10(c *Check) {
 		} else {
 			c.Note("no MsgNewEthBlock exception found in AnteHandle (stricter than required)")
 		}
-		// relayerTxOnly
-		c.RequireFact(rto, "R2", "namespace-prefix", lit("strings.HasPrefix($0, \"goat.bitcoin.\")")+"|"+lit("strings.HasPrefix($0, \"goat.relayer.\")"), nil, "")
-		c.RequireFact(rto, "R2", "signer=relayer-proposer", lit("AccAddress.Equals(^RelayerKeeper.GetCurrentProposer()#0, ^StdTx.GetSigners("+std+"#0)#0[0])"), nil, "")
-		// R3 predicate extraction
+		// R3 predicate extraction: every string operation applied to the message name, in AnteHandle, its closures
+		// and the repository helpers it hands the name to
+		type nameFn struct {
+			fn  *ssa.Function
+			arg string
+		}
+		nameFns := []nameFn{{ah, name}}
+		for _, ci := range callsIn(ah) {
+			g := resolveCallee(ci.Common())
+			if g == nil || len(g.Blocks) == 0 || !isProdPkgFn(g) || p.isGenerated(g) {
+				continue
+			}
+			for k, a := range ci.Common().Args {
+				if p.R(ah).E(a) == name {
+					idx := k
+					if g.Signature.Recv() == nil && len(g.FreeVars) >= 0 {
+						nameFns = append(nameFns, nameFn{g, fmt.Sprintf("$%d", idx)})
+					}
+				}
+			}
+		}
 		var prefixes []string
 		okPred := true
-		for _, ci := range callsIn(rto) {
-			s := p.CallStr(ci)
-			if strings.HasPrefix(s, "strings.") {
-				m := regexp.MustCompile(`^strings\.HasPrefix\(\$0, "([^"]*)"\)$`).FindStringSubmatch(s)
+		for _, nf := range nameFns {
+			for _, ci := range callsIn(nf.fn) {
+				s := p.CallStr(ci)
+				if !strings.HasPrefix(s, "strings.") || !strings.Contains(s, nf.arg) {
+					continue
+				}
+				m := regexp.MustCompile(`^strings\.HasPrefix\(` + regexp.QuoteMeta(nf.arg) + `, "([^"]*)"\)$`).FindStringSubmatch(s)
 				if m == nil {
 					okPred = false
-					c.Violated("R3", "name-predicate @ "+FuncKey(rto), p.InstrPos(ci), "string operation on the message name other than HasPrefix(name, const): "+s+" reason=not-established")
+					c.Violated("R3", "name-predicate @ "+FuncKey(nf.fn), p.InstrPos(ci), "string operation on the message name other than HasPrefix(name, const): "+s+" reason=not-established")
 				} else {
 					prefixes = append(prefixes, m[1])
 				}
 			}
 		}
-		sort.Strings(prefixes)
+		prefixes = dedupe(prefixes)
 		exact := ""
 		for _, ef := range p.EdgeFacts(ah) {
 			if m := regexp.MustCompile(`^\("([^"]*)" == ` + regexp.QuoteMeta(name) + `\)$`).FindStringSubmatch(ef.Fact); m != nil {
